@@ -169,4 +169,33 @@ func (*regReporter).Flush returns (err)
   modifies ghost(bufSticky, sinkFailed, sinkPend)
   ensures @sink [C17] BufStep(r.output)
   ensures @reports-loss [C17] (err != nil) == bufSticky[r.output] && (err == nil ==> sinkPend[bufSink[r.output]] == 0)
+
+// ---------------------------------------------------------------------------------------------
+// the register command
+// ---------------------------------------------------------------------------------------------
+func NewRegReporter returns (r)
+  props C02 C08 C17
+  requires @book DBIs(db) && TreeInv()
+  modifies ghost(bufSink, bufSticky, accP, accN, accH)
+  ensures @reporter RepInv(r) && fresh(RepBuf(r)) && RepBookBelow(r, alloc())
+  ensures @sink [C17] bufSink == store(old(bufSink), RepBuf(r), payload(c.Output)) && bufSticky == store(old(bufSticky), RepBuf(r), false)
+
+func Register$1 returns (r)
+  props C02 C08 C17
+  refines utils.ReporterCallback
+
+func Register returns (err)
+  props C02 C08 C09 C10 C17
+  requires @sink rc.ReporterConfig.Output != nil && !typeis(rc.ReporterConfig.Output, "*bufio.Writer") && !typeis(rc.ReporterConfig.Output, "*encoding/csv.Writer") && TreeInv()
+  modifies *
+  modifies ghost(cbLen, cbErr, cbNode, cbStop, cbRet, cbLineNo, cbLine, cbHeader, cbElems, cbNElems, scRd, scPos, privLo, evOf, accKey, accP, accN, accH, bufSink, bufSticky, sinkFailed, sinkPend, prLen, prSink, prArg, prArgs, tnodes, tdepth, tmax, tmapOf)
+  let out := payload(rc.ReporterConfig.Output)
+  let lrd := payload(logStream)
+  let drd := payload(dbStream)
+  let cc := rc.ParserConfig.CommentChar
+  ensures @book-unreadable [C10] err == nil ==> !RdFailed(drd)
+  ensures @book-malformed [C09] err == nil ==> (forall i int :: {RdLine(drd, i)} 0 <= i && i < RdN(drd) ==> !Malformed(drd, i, cc))
+  ensures @log-unreadable [C10] err == nil ==> !RdFailed(lrd)
+  ensures @log-malformed [C09] err == nil ==> (forall i int :: {RdLine(lrd, i)} 0 <= i && i < RdN(lrd) ==> !Malformed(lrd, i, cc))
+  ensures @reports-loss [C17] err == nil ==> (sinkFailed[out] ==> old(sinkFailed[out])) && sinkPend[out] == 0
 @*/
